@@ -22,7 +22,10 @@ struct T {
     St st = NEW;
     const void *waiting = nullptr;
     int prio = 0;
+    const void *spin_addr = nullptr; // consecutive yields at one address
+    unsigned spin_count = 0;
 };
+const unsigned SPIN_LIMIT = 256;
 
 T threads[MAXT];
 int nthreads = 0;
@@ -203,6 +206,8 @@ void begin(int n, const Config &c)
         threads[i].st = NEW;
         threads[i].waiting = nullptr;
         threads[i].prio = 0;
+        threads[i].spin_addr = nullptr;
+        threads[i].spin_count = 0;
     }
     if (cfg.pct_mode) // random distinct priorities
         for (int i = 0; i < n; i++)
@@ -303,6 +308,40 @@ void yield(int kind, const void *addr)
         fatal("step cap exceeded (livelock?)", 79);
     }
     int to = -1;
+    // fairness for busy waiting: a thread that keeps touching one address
+    // (a spin lock, a "wait until the other thread has published" loop) can
+    // only make progress if somebody else runs; after SPIN_LIMIT consecutive
+    // yields at the same address the token goes to another runnable thread,
+    // whatever the strategy (a function of the execution, not of the PRNG
+    // stream position: replays take the same forced switches)
+    bool forced = false;
+    if (addr != nullptr && addr == threads[self].spin_addr) {
+        if (++threads[self].spin_count >= SPIN_LIMIT) {
+            threads[self].spin_count = 0;
+            forced = true;
+        }
+    } else {
+        threads[self].spin_addr = addr;
+        threads[self].spin_count = 0;
+    }
+    if (forced) {
+        int cand = -1;
+        for (int i = 1; i <= nthreads; i++) {
+            int t = (self + i) % nthreads;
+            if (t != self && threads[t].st == RUNNABLE) {
+                cand = t;
+                break;
+            }
+        }
+        if (cand >= 0) {
+            st.spin_switches++;
+            // keep the explicit list in step: an entry for this very yield is consumed
+            while (cfg.explicit_mode && next_switch < sw_n && sw_y[next_switch] <= st.yields)
+                next_switch++;
+            switch_to(self, cand, kind, true);
+            return;
+        }
+    }
     if (cfg.explicit_mode) {
         while (next_switch < sw_n && sw_y[next_switch] < st.yields)
             next_switch++;
@@ -344,7 +383,7 @@ void worker_exit(int id)
         if (threads[i].st == BLOCKED)
             st.deadlock = true;
     if (st.deadlock)
-        fatal("deadlock: every remaining thread waits for a static initialiser", 78);
+        fatal("deadlock: every remaining thread waits for a static initialiser or a lock", 78);
     current = -1;
     wake_main();
 }
@@ -379,6 +418,38 @@ void guard_before_acquire(const void *g, bool complete)
         }
         switch_to(self, to, K_GUARD, true);
     }
+}
+
+void block_on(const void *resource)
+{
+    if (!active_worker())
+        return;
+    int self = tl_id;
+    st.lock_blocks++;
+    threads[self].st = BLOCKED;
+    threads[self].waiting = resource;
+    int to = pick_runnable(self);
+    if (to < 0) {
+        st.deadlock = true;
+        fatal("deadlock: every thread waits for a lock held by another waiting thread", 78);
+    }
+    {
+        char buf[64];
+        snprintf(buf, sizeof buf, "t%d blocks on a lock", self);
+        ev_add(buf);
+    }
+    switch_to(self, to, K_GUARD, true);
+}
+
+void resource_released(const void *resource)
+{
+    if (!sim_active)
+        return;
+    for (int i = 0; i < nthreads; i++)
+        if (threads[i].st == BLOCKED && threads[i].waiting == resource) {
+            threads[i].st = RUNNABLE;
+            threads[i].waiting = nullptr;
+        }
 }
 
 void guard_acquired(const void *g)
